@@ -7,5 +7,5 @@ CONSTANTS
   Indices = {0, 1, 9, 10, 11, 100}
   MaxIdxLen = 3
   MinIdLen = 7
-INVARIANTS CollisionExact IndexedDistinct Sanity GlobalsDistinctUnlimited
+INVARIANTS CollisionExact IndexedDistinct Sanity GlobalsDistinctUnlimited NameKeyedExact NameKeyedDistinctUnlimited
 CHECK_DEADLOCK FALSE
